@@ -22,3 +22,31 @@ Proof.
   - intros H. apply Qc_is_canon. apply Qeq_bool_iff. exact H.
   - intros ->. apply Qeq_bool_iff. reflexivity.
 Qed.
+
+(* `cast(<literal>)`: the embedding of rational literals is a ring homomorphism *)
+Record OfQHom {F} (O : Ops F) : Prop := mkOfQHom {
+  ofQ_eq : forall a b : Q, Qeq a b -> ofQ O a = ofQ O b;
+  ofQ_1 : ofQ O 1%Q = one O;
+  ofQ_add : forall a b : Q, ofQ O (a + b)%Q = add O (ofQ O a) (ofQ O b);
+  ofQ_mul : forall a b : Q, ofQ O (a * b)%Q = mul O (ofQ O a) (ofQ O b)
+}.
+
+Lemma ofQ_two {F} (O : Ops F) : OfQHom O -> ofQ O (inject_Z 2) = add O (one O) (one O).
+Proof.
+  intros H. rewrite <- (ofQ_1 O H), <- (ofQ_add O H). apply (ofQ_eq O H). reflexivity.
+Qed.
+Lemma ofQ_one {F} (O : Ops F) : OfQHom O -> ofQ O (inject_Z 1) = one O.
+Proof. intros H. rewrite <- (ofQ_1 O H). apply (ofQ_eq O H). reflexivity. Qed.
+Lemma ofQ_half_two {F} (O : Ops F) : OfQHom O -> mul O (ofQ O (1 # 2)) (add O (one O) (one O)) = one O.
+Proof.
+  intros H. rewrite <- (ofQ_two O H), <- (ofQ_mul O H), <- (ofQ_1 O H). apply (ofQ_eq O H). reflexivity.
+Qed.
+
+Lemma OfQHom_Qc : OfQHom OpsQ.
+Proof.
+  constructor; simpl.
+  - intros a b E. apply Q2Qc_eq_iff. exact E.
+  - reflexivity.
+  - intros a b. unfold Qcplus. apply Q2Qc_eq_iff. simpl. rewrite !Qred_correct. reflexivity.
+  - intros a b. unfold Qcmult. apply Q2Qc_eq_iff. simpl. rewrite !Qred_correct. reflexivity.
+Qed.
